@@ -70,7 +70,9 @@ class Sandbox:
         self.dir = tempfile.mkdtemp(prefix=tag + "-", dir="/var/tmp/copia-bbox")
         self.home = os.path.join(self.dir, "home")
         os.makedirs(self.home)
-        self.env = dict(os.environ, HOME=self.home, HOSTNAME=HOST, RUST_LOG="off",
+        # TZ: a non-UTC zone with DST, given as a POSIX string (no tzdata needed). The properties hold in any
+        # time zone; epoch-second handling that silently assumes UTC (seed C14-C) is invisible under TZ=UTC.
+        self.env = dict(os.environ, HOME=self.home, HOSTNAME=HOST, RUST_LOG="off", TZ="EST5EDT,M3.2.0,M11.1.0",
                         PATH=SSHSTUB + ":" + os.path.dirname(CLI_BIN) + ":" + os.environ.get("PATH", ""),
                         SSH_STUB_HOME=self.home)
 
